@@ -100,6 +100,25 @@ def gen_dep_program(rng, steer=None):
             calls = [{"vals": [rng.choice(ints), rng.choice(ints + [enc_val("a")])]} for _ in range(12)]
         rng.shuffle(defs)
         return {"spec": spec, "defs": defs, "utab": {str(k): v for k, v in utab.items()}, "calls": calls}
+    if steer == "keyed_other":
+        # >= 4 handlers keyed on distinct Literals at position 0 (lookup-table path); one of them also has a dependent
+        # parameter at position 1; crossed specificities keep them all in one rank
+        n = rng.randint(4, 6)
+        fid = fids[0]; fids[0] += 1
+        utab[fid] = [e for e in corpus_enc if e[0] == 0 and e[1] % 2 == 0]        # "even"
+        special = rng.randrange(n - 1)                                              # never the last one
+        for i in range(n):
+            lit = [8, [0, INT], enc_val(i)]
+            if i == special:
+                pos = [lit, [9, fid, [0, INT]], [0, 0]]
+            else:
+                pos = [lit, [0, 0], [0, INT]]
+            defs.append({"id": i, "pos": pos, "npos_req": 3, "kw": [], "prio": 0})
+        if rng.random() < 0.5:
+            defs.append({"id": 20, "pos": [[0, 0], [0, 0], [0, 0]], "npos_req": 3, "kw": [], "prio": 0})
+        ints = [enc_val(v) for v in (1, 2, 3, 7)]
+        calls = [{"vals": [enc_val(rng.randrange(n + 1)), rng.choice(ints), rng.choice(ints)]} for _ in range(14)]
+        return {"spec": spec, "defs": defs, "utab": {str(k): v for k, v in utab.items()}, "calls": calls}
     if steer == "kwonly":
         # value-dependent types on keyword-only parameters
         pool = rng.choice([[1, 2, 3, 7], ["a", "ab", "b"]])
